@@ -20,8 +20,15 @@ var (
 	uHosts   = []string{"example.com", "EXAMPLE.com", "h", "h:8080", "Sub.Example.ORG:443", "h:", "a-b.c", "exämple.com", "EXÄMPLE.com",
 		"h%C3%A9", "h%c3%a9", "hé", "h\xff", "h\xfe", "h%41", "h%25", "a:b:80", "h:x", "h<>", "h!$&'()*+,;=", "K.example", "k.example", "K.example",
 		"ſ.example", "s.example", "", "h h", "h\"q", "h^", "h%zz", "h%8", "127.0.0.1:666"}
-	uHostsOut = []string{"u@h", "u:p@h", "[::1]", "[::1]:80", "[fe80::1%25en0]", "a@b@c", "[x"}
-	uSegs     = []string{"a", "b", "users", "alice", "Alice", "inbox", "Outbox", "likes", "FOLLOWING", "replies", "shares", "liked", "followers",
+	// userinfo and IP literals, well-formed and not
+	uHostsOut = []string{"u@h", "u:p@h", "[::1]", "[::1]:80", "[fe80::1%25en0]", "a@b@c", "[x",
+		"U@H", "u:@h", ":p@h", "@h", "u@", "u:p:q@h:80", "u%41:p%3a@h", "u%zz@h", "u%4@h", "u é@h", "\xe9@h", "u%2Fx@h", "u;v=1&w@h", "u@h%C3%A9", "u@exämple.com:8080",
+		"alice:secret@example.com", "Alice:SECRET@EXAMPLE.com", "u@[::1]:80", "u:p@[fe80::1%25eth0]:8080", "u<@h", "u\"@h", "u~!$&'()*+,;=@h", "u@h@", "a@b:c@d:9",
+		"[FE80::1]", "[fe80::1]", "[::1]:", "[::1]:80x", "[::1]x", "[fe80::1%25ETH0]", "[fe80::1%25eth0]:8080", "[fe80::1%eth0]", "[x]y]:1", "[fe80::1%25e%20h]",
+		"[fe80::1%25e%2Fh]", "[fe80::1%25e%41h]", "[fe80::1%25%25]", "[::1%C3%A9]", "[::1%41]", "[é]", "[a b]", "]", "a]b", "a[b", "[]", "[%25]", "[a%25b%25c]", "[a]%25[b]",
+		"[a%25b]c]:1", "[a%25b]%41]", "[a%25b]%C3%A9]", "[%25%zz]", "[::1%2]", "[::1%25", "[%25]]", "[a%25\"]", "[a%25%22]", "[a%25%7f]", "[a%25%80]", "[a%2%25b]", "[a%25\xff]",
+		"[v1.fe80::a+en1]", "[2001:db8::7]:443", "[2001:DB8::7]:443", "[::ffff:192.0.2.1]", "127.0.0.1", "127.0.0.1:80", "192.0.2.1:0", "1.2.3.4.5", "[k%25K]", "[K%25k]"}
+	uSegs = []string{"a", "b", "users", "alice", "Alice", "inbox", "Outbox", "likes", "FOLLOWING", "replies", "shares", "liked", "followers",
 		"~x_y-z.1", ".", "..", "a%2Fb", "a%2Finbox", "%41", "a%20b", "%25", "a%3Fb", "x%23y", "a!b", "(c)", "d'e*", "k;v=1", "u@h:1", "$&+,",
 		"%2e%2e", "x%2F", "%00", "inbo%78", "%2f", "%7E", "é", "É", "%C3%A9", "%c3%a9", "%C3%89", "liKed", "li%E2%84%AAed", "li%e2%84%aaed", "liKed",
 		"likeſ", "like%C5%BF", "LIKES", "%ff", "%FE", "\xff", "\xfe", "\xe2%84%aa", "\xef\xbf\xbd%84%AA", "%E2%84", "%E2", "\xe2\x84", "a b", "a\"b", "<x>", "[y]", "{z}",
@@ -47,9 +54,11 @@ func (g *Gen) uIRI(odd int) string {
 		if g.Chance(1, 4) {
 			host = pick(uHosts)
 		}
-		if g.Chance(1, 12) {
+		if g.Chance(1, 6) {
 			host = pick(uHostsOut)
 		}
+	} else if g.Chance(1, 8) {
+		host = pick(uHostsOut)
 	}
 	sep := "://"
 	if odd > 0 && g.Chance(1, 10) {
@@ -112,9 +121,18 @@ func uOpt(present bool, s string) string {
 	return "(Some " + hx([]byte(s)) + ")"
 }
 
+// URL.User: nil, or the name and the password when one is set
+func uUserTerm(ui *url.Userinfo) string {
+	if ui == nil {
+		return "None"
+	}
+	pw, set := ui.Password()
+	return "(Some (" + hx([]byte(ui.Username())) + ", " + uOpt(set, pw) + "))"
+}
+
 // the observed fields of a *url.URL the model has
 func uURLTerm(u *url.URL) string {
-	return "(" + hx([]byte(u.Scheme)) + ", " + hx([]byte(u.Opaque)) + ", " + hx([]byte(u.Host)) + ", " + hx([]byte(u.Path)) + ", " + hx([]byte(u.RawPath)) + ", " +
+	return "(" + hx([]byte(u.Scheme)) + ", " + hx([]byte(u.Opaque)) + ", " + uUserTerm(u.User) + ", " + hx([]byte(u.Host)) + ", " + hx([]byte(u.Path)) + ", " + hx([]byte(u.RawPath)) + ", " +
 		uOpt(u.ForceQuery || u.RawQuery != "", u.RawQuery) + ", " + hx([]byte(u.Fragment)) + ", " + hx([]byte(u.RawFragment)) + ", " + cbool(u.OmitHost) + ")"
 }
 
@@ -137,9 +155,10 @@ func uQueryTerm(rawq string) string {
 }
 
 const uLibHeader = "From AP.Model Require Import Prelude Vocab Bytes Url IriEq Pred CollIri Utf8 Fold UrlU IriEqU CollIriU.\n" +
-	"Definition uobs := (bytes * bytes * bytes * bytes * bytes * option bytes * bytes * bytes * bool)%type.\n" +
-	"Definition uurl_eqb (u : uurl) (o : uobs) : bool := let '(sc, op, h, p, rp, q, f, rf, om) := o in\n" +
-	"  bytes_eqb (uu_scheme u) sc && bytes_eqb (uu_opaque u) op && bytes_eqb (uu_host u) h && bytes_eqb (uu_path u) p && bytes_eqb (uu_rawpath u) rp\n" +
+	"Definition uobs := (bytes * bytes * uuser * bytes * bytes * bytes * option bytes * bytes * bytes * bool)%type.\n" +
+	"Definition uuser_eqb (a b : uuser) : bool := option_eqb (fun x y => bytes_eqb (fst x) (fst y) && option_eqb bytes_eqb (snd x) (snd y)) a b.\n" +
+	"Definition uurl_eqb (u : uurl) (o : uobs) : bool := let '(sc, op, us, h, p, rp, q, f, rf, om) := o in\n" +
+	"  bytes_eqb (uu_scheme u) sc && bytes_eqb (uu_opaque u) op && uuser_eqb (uu_user u) us && bytes_eqb (uu_host u) h && bytes_eqb (uu_path u) p && bytes_eqb (uu_rawpath u) rp\n" +
 	"  && option_eqb bytes_eqb (uu_query u) q && bytes_eqb (uu_frag u) f && bytes_eqb (uu_rawfrag u) rf && Bool.eqb (uu_omit u) om.\n" +
 	"Definition parse_agrees (m : uparse) (o : option uobs) (must : bool) : bool :=\n" +
 	"  match m, o with UOut, _ => negb must | UErr, None => true | UUrl u, Some x => uurl_eqb u x | _, _ => false end.\n" +
@@ -161,14 +180,14 @@ func uLibWriter(outDir, name string) *CaseWriter {
 }
 
 func uLibAdd(cw *CaseWriter, s string, label string) {
-	must := !strings.ContainsAny(s, "@[")
+	must := true // nothing is outside the model: userinfo and IP literals are parsed like everything else
 	parsed, str, qv := "None", "", "[]"
 	var strs []string
 	if u, err := url.Parse(s); err == nil {
 		parsed = "(Some " + uURLTerm(u) + ")"
 		str = u.String()
 		qv = uQueryTerm(u.RawQuery)
-		if u.User == nil {
+		{
 			old := u.Path
 			d := old
 			if k := strings.LastIndexByte(old, '/'); k >= 0 {
@@ -181,8 +200,6 @@ func uLibAdd(cw *CaseWriter, s string, label string) {
 				strs = append(strs, "("+hx([]byte(np))+", "+hx([]byte(u.String()))+")")
 			}
 			u.Path = old
-		} else {
-			must = false
 		}
 	}
 	req := "None"
